@@ -158,6 +158,10 @@ def run(tier='quick'):
                               '%s: no read of %s restricted to the root convention (%s)' % (
                                   inst, role['table'], role.get('self_parent') or role.get('const')))
 
+    # the recursive views the 2.x queries and the cycle guard read are per-version copies of one
+    # definition: all supported 2.x creators must issue the same one
+    from . import c08
+    c08.chain_trigger_siblings(prog, chk, T1, tables=(), views=('playlistallchildren', 'playlistallparent', 'playlistpath'))
     # ---- T2 --------------------------------------------------------------------------
     for qn, role in spec['closure'].items():
         for f, ip, ret in evaluate(prog, cg, eff, qn):
